@@ -335,6 +335,7 @@ func ShadowedUniverse(p *packages.Package) []string {
 	if p.TypesInfo == nil {
 		return nil
 	}
+	shadows := map[types.Object]*ast.Ident{}
 	for id, obj := range p.TypesInfo.Defs {
 		if obj == nil || obj.Parent() == nil { // fields and methods have no lexical parent
 			continue
@@ -342,7 +343,44 @@ func ShadowedUniverse(p *packages.Package) []string {
 		if id.Name == "_" || types.Universe.Lookup(id.Name) == nil || !guardedUniverse[id.Name] {
 			continue
 		}
-		// receivers/params/locals count as well: they change what the name means in their scope
+		shadows[obj] = id
+	}
+	if len(shadows) == 0 {
+		return nil
+	}
+	// A shadowing declaration matters to the rules (which read calls, conversions, type expressions and the
+	// constants nil/true/false by name) only where it is USED in such a position; a plain value variable that
+	// happens to be called `new` or `len` and is only read as a value cannot be mistaken for the builtin.
+	risky := map[types.Object]bool{}
+	for obj, id := range shadows {
+		switch obj.(type) {
+		case *types.TypeName, *types.Func:
+			risky[obj] = true // a type or function with a predeclared name: every use reads like the builtin
+		case *types.Const:
+			risky[obj] = true
+		case *types.Var:
+			switch id.Name {
+			case "nil", "true", "false", "iota":
+				risky[obj] = true
+			}
+		}
+	}
+	for _, f := range p.Syntax {
+		ast.Inspect(f, func(n ast.Node) bool {
+			if call, ok := n.(*ast.CallExpr); ok {
+				if id, ok := ast.Unparen(call.Fun).(*ast.Ident); ok {
+					if obj := p.TypesInfo.Uses[id]; obj != nil && shadows[obj] != nil {
+						risky[obj] = true // called like the builtin / used like the conversion
+					}
+				}
+			}
+			return true
+		})
+	}
+	for obj, id := range shadows {
+		if !risky[obj] {
+			continue
+		}
 		pos := p.Fset.Position(id.Pos())
 		out = append(out, fmt.Sprintf("%s (%s:%d)", id.Name, filepath.Base(pos.Filename), pos.Line))
 	}
